@@ -5,6 +5,7 @@ Theorems about the model `SkNet/Model/Gnn.lean` instantiated at `ℝ` (`SkNet/Le
 import SkNet.Lemmas.GnnLossModel
 import SkNet.Lemmas.GnnPredict
 import SkNet.Lemmas.GnnEquiv
+import SkNet.Lemmas.GnnNetwork
 
 namespace SkNet.C19
 open SkNet SkNet.Gnn SkNet.Gnn.Mat Finset
@@ -180,6 +181,89 @@ theorem bce_pinned_formula_is_not_the_gradient :
     ∃ G, bceLossGradientPinned (mk' 1 2 fun _ _ => (0 : ℝ)) [1] = .ok G ∧
       G.get 0 0 ≠ (Spec.bceGradient (mk' 1 2 fun _ _ => (0 : ℝ)) [1]).get 0 0 :=
   bce_pinned_not_gradient
+
+/-- **the whole network is equivariant.** `GNNClassifier.forward` through any number of layers (each with its own,
+possibly sampled, adjacency, normalisation, activation, weight and bias): renumbering the nodes of every adjacency and
+of the features permutes the rows of the output in the same way — also when some product raises (both sides raise). -/
+theorem gnn_forward_equivariant (n : Nat) (p : Nat → Nat) (hp : IsRenumbering n p) (ls : List LayerFn)
+    (hb : ∀ l ∈ ls, ∀ bl, l.b = some bl → bl.length = l.c) :
+    ∀ (d : Nat) (x : Nat → Nat → ℝ),
+      gnnForward (buildLayers n p d ls) (mk' n d fun i l => x (p i) l) =
+        (gnnForward (buildLayers n id d ls) (mk' n d x)).map fun O => mk' n O.c fun i k => O.get (p i) k := by
+  induction ls with
+  | nil =>
+    intro d x
+    simp only [buildLayers, gnnForward, Except.map, mk'_c]
+    congr 1
+    apply mk'_congr
+    intro i hi k hk
+    rw [get_mk'_of_lt x (hp.lt hi) hk]
+  | cons l ls ih =>
+    intro d x
+    have hbl : ∀ bl, l.b = some bl → bl.length = l.c := hb l (List.mem_cons_self ..)
+    have hrest : ∀ l' ∈ ls, ∀ bl, l'.b = some bl → bl.length = l'.c := fun l' hl' => hb l' (List.mem_cons_of_mem _ hl')
+    simp only [buildLayers, gnnForward, id]
+    rw [forward_equivariant l.cfg n d l.c l.a x l.w l.b hbl p hp,
+      forward_eq_def l.cfg n n d l.c l.a x l.w l.b hbl (fun _ => rfl)]
+    simp only [Except.map, bind, Except.bind]
+    have hform : (mk' n l.c fun i k => (Spec.forward l.cfg (mk' n n l.a) (mk' n d x) (mk' d l.c l.w) l.b).get (p i) k)
+        = mk' n l.c fun i k => (fun i k => Spec.actFn l.cfg.act l.c
+            (fun k' => Spec.preAct l.cfg.norm l.cfg.selfEmb (mk' n n l.a) (mk' n d x) (mk' d l.c l.w) l.b i k') k) (p i) k := by
+      apply mk'_congr
+      intro i hi k hk
+      unfold Spec.forward
+      simp only [mk'_r, mk'_c]
+      rw [get_mk'_of_lt _ (hp.lt hi) hk]
+    rw [hform]
+    exact ih hrest l.c (fun i k => Spec.actFn l.cfg.act l.c
+      (fun k' => Spec.preAct l.cfg.norm l.cfg.selfEmb (mk' n n l.a) (mk' n d x) (mk' d l.c l.w) l.b i k') k)
+
+
+/-- non-vacuity: a two-layer network whose biases have the layers' widths -/
+example : ∀ l ∈ ([⟨⟨.both, true, .relu⟩, 2, fun _ _ => 1, some [0, 0], fun _ _ => 1⟩,
+                   ⟨⟨.left, false, .softmax⟩, 3, fun _ _ => 1, none, fun _ _ => 1⟩] : List LayerFn),
+    ∀ bl, l.b = some bl → bl.length = l.c := by
+  intro l hl bl hb
+  simp only [List.mem_cons, List.not_mem_nil, or_false] at hl
+  rcases hl with h | h <;> subst h <;> simp at hb
+  subst hb
+  rfl
+
+/-- **cross-entropy gradient against the code's own loss.** For every signal whose label probabilities lie strictly
+inside the clipping interval `(1e-10, 1 − 1e-10)` of `CrossEntropy.loss`, `loss_gradient[i, k]` is `n` times the
+derivative of the value `CrossEntropy.loss` itself returns (clipping included) with respect to `signal[i, k]`. -/
+theorem ce_gradient_of_the_clipped_loss (n c : Nat) (s : Nat → Nat → ℝ) (labels : List Nat) (hn : 0 < n)
+    (hlen : labels.length = n) (hlab : ∀ y ∈ labels, y < c)
+    (hclip : ∀ i, i < n → (eps10 : ℝ) < Spec.softmaxFn c (s i) (labels.getD i 0) ∧
+      Spec.softmaxFn c (s i) (labels.getD i 0) < 1 - eps10)
+    (i k : Nat) (hi : i < n) (hk : k < c) :
+    ∃ G, ceLossGradient (mk' n c s) labels = .ok G ∧
+      HasDerivAt (fun t => (n : ℝ) * lossVal (ceLoss (mk' n c (updRow s i k t)) labels)) (G.get i k) (s i k) :=
+  ⟨_, ceLossGradient_eq_spec n c s labels hlen hlab, ceLoss_model_hasDerivAt n c s labels hn hlen hlab hclip i k hi hk⟩
+
+/-- non-vacuity: with two channels and signal 0 the label probability is 1/2, strictly inside the clipping interval -/
+example : (eps10 : ℝ) < Spec.softmaxFn 2 (fun _ => (0 : ℝ)) 1 ∧ Spec.softmaxFn 2 (fun _ => (0 : ℝ)) 1 < 1 - eps10 := by
+  have h : Spec.softmaxFn 2 (fun _ => (0 : ℝ)) 1 = 1 / 2 := by
+    unfold Spec.softmaxFn
+    rw [sumTo_eq]
+    simp
+  rw [h]
+  unfold eps10
+  simp only [num_frac]
+  constructor <;> norm_num
+
+/-- **binary cross-entropy gradient against the code's own loss** (repaired code, any number of channels): wherever all
+sigmoid probabilities lie strictly inside `(1e-15, 1 − 1e-15)`, `loss_gradient[i, k]` is `n` times the derivative of
+the value `BinaryCrossEntropy.loss` returns. With one channel the labels must be binary for the gradient method to
+be that derivative (`bce_gradient_one_channel`). -/
+theorem bce_gradient_of_the_clipped_loss (n c : Nat) (hc : c ≠ 1) (s : Nat → Nat → ℝ) (labels : List Nat) (hn : 0 < n)
+    (hlen : labels.length = n) (hlab : ∀ y ∈ labels, y < c)
+    (hclip : ∀ i, i < n → ∀ k, k < c → (eps15 : ℝ) < Real.sigmoid (s i k) ∧ Real.sigmoid (s i k) < 1 - eps15)
+    (i k : Nat) (hi : i < n) (hk : k < c) :
+    ∃ G, bceLossGradient (mk' n c s) labels = .ok G ∧
+      HasDerivAt (fun t => (n : ℝ) * lossVal (bceLoss (mk' n c (updRow s i k t)) labels)) (G.get i k) (s i k) :=
+  ⟨_, bceLossGradient_eq_spec_several n c hc s labels hlen hlab,
+    bceLoss_model_hasDerivAt n c s labels hn hlen (fun _ => hlab) hclip i k hi hk⟩
 
 /-- **soft-max output rows sum to 1** (output of a soft-max / cross-entropy layer, at least one channel) -/
 theorem softmax_rows_sum_one (n c : Nat) (hc : 0 < c) (e : Nat → Nat → ℝ) (i : Nat) (hi : i < n) :
